@@ -125,7 +125,7 @@ func (g *g14) pick(xs ...string) string {
 func (g *g14) assignable(k kind) []string {
 	var out []string
 	for _, n := range g.localsOf(k) {
-		if n != "i" && n != "j" && !strings.HasPrefix(n, "w") {
+		if n != "i" && n != "j" && !(n == "n" && g.inFunc != nil) && !strings.HasPrefix(n, "w") {
 			out = append(out, n)
 		}
 	}
@@ -563,6 +563,9 @@ func (g *g14) stmt(d int) string {
 	case c < 8: // local declaration / assignment
 		k := g.pickKind(kInt, kInt, kStr, kMap, kArr, kBool)
 		name := g.r.pick(localNames)
+		if name == "n" && g.inFunc != nil {
+			name = "t" // the recursion parameter must keep decreasing
+		}
 		if g.ch(1, 2) {
 			ty := kindTy(k, g.r)
 			if ty == "" {
@@ -608,6 +611,9 @@ func (g *g14) stmt(d int) string {
 			return g.r.pick(ls) + "[" + g.pick("1", "-1", "2", "3", "4", "0") + "] = " + g.expr(1, kInt) + ";"
 		}
 		name := g.r.pick(localNames)
+		if name == "n" && g.inFunc != nil {
+			name = "t" // the recursion parameter must keep decreasing
+		}
 		for _, v := range g.localsOf(kAny) {
 			if v == name {
 				return "unset " + name + ";"
